@@ -168,6 +168,16 @@ func (ps *Parser) parseMetaTags(root *html.Node) {
 		metaNodes = dom.QuerySelectorAll(root, "meta[property]")
 	}
 
+	// The profile and article properties are only used for objects of that type,
+	// and the tags of a page come in any order: look up the type of the object
+	// before anything else, so properties that precede "og:type" count as well.
+	typeProperty := ps.prefixes[OG] + ":" + TypeProp
+	for _, meta := range metaNodes {
+		if strings.ToLower(dom.GetAttribute(meta, "property")) == typeProperty {
+			ps.propertyTable[TypeProp] = dom.GetAttribute(meta, "content")
+		}
+	}
+
 	// Parse property
 	for _, meta := range metaNodes {
 		content := dom.GetAttribute(meta, "content")
